@@ -601,7 +601,9 @@ def NetSt.accClose (n : NetSt) (now : Int) (name : String) : NetSt × List NEff 
     let s := match s.acc with | some a => { s with acc := some { a with queueLimit := -1 } } | none => s
     let (s, e1) := s.abortAccept
     let (n, e2) := (n.setTcp name s).tcpClose now name
-    (n, e1 ++ e2)
+    -- connections still queued are reset (check_accept_queue() on the now closed acceptor)
+    let (n, e3) := n.accCheckQueue now name
+    (n, e1 ++ e2 ++ e3)
 
 /-- move construction of a TCP socket -/
 def NetSt.tcpMove (n : NetSt) (src dst : String) : NetSt :=
